@@ -9,39 +9,12 @@ import re
 
 from harness import core
 
-T1 = '''from icontract import DBC, invariant
-from typing import List, Optional
-from enum import Enum
+from harness import cache_texts
 
-
-class Color(Enum):
-    Red = "RED"
-    Green = "GREEN"
-
-
-@invariant(lambda self: len(self) > 0, "Non-empty")
-class Name(str, DBC):
-    pass
-
-
-@invariant(lambda self: self.count >= 0, "Count is non-negative")
-class Something(DBC):
-    name: Name
-    count: int
-    color: Optional[Color]
-    friends: Optional[List["Something"]]
-
-    def __init__(self, name: Name, count: int, color: Optional[Color] = None, friends: Optional[List["Something"]] = None) -> None:
-        self.name = name
-        self.count = count
-        self.color = color
-        self.friends = friends
-
-
-__version__ = "V1"
-__xml_namespace__ = "https://dummy.com"
-'''
-T2 = T1.replace('"Count is non-negative"', '"Count is not negative"')
+# the two texts of the concurrent runs are near-identical (one leading blank line apart): a key derivation that
+# conflates them shows up as a foreign read
+T1 = cache_texts.T1
+T2 = cache_texts.T3
 
 
 def parse_schedules(stdout: str):
